@@ -171,7 +171,8 @@ class C11(Prop):
         elif g.random() < 0.45:
             src = {"kind": "corpus", "file": g.choice(files), "mutate": g.randrange(1 << 30) if g.random() < 0.6 else None}
         else:
-            doc = docmodel.std_doc(g, custom=g.choice([0, 0, 1]), wrap=g.random() < 0.2, nonascii=g.random() < 0.2)
+            doc = docmodel.std_doc(g, custom=g.choice([0, 0, 1]), wrap=g.random() < 0.2, nonascii=g.random() < 0.2,
+                                   ncurves=g.choice([None, None, None, None, 7, 14, 21, 24, 28, 35, 36]))
             if g.random() < 0.3:
                 for sec in doc["sections"]:
                     if sec["kind"] == "C" and len(sec["items"]) > 1:
